@@ -44,9 +44,11 @@ ARGSETS = {
     # by every call in the process
     "H": dict(pi_method="bootstrap", estimands=["margin"], alphas=[0.9], aggregates=["postal_code", "unit"], features=["baseline_normalized_margin"], model_parameters={}, omit_params=True),
     "I": dict(pi_method="nonparametric", estimands=["turnout"], alphas=[0.7], aggregates=["postal_code", "unit"], features=[], model_parameters={}, omit_params=True),
+    # J: gaussian with the seed setting 0 (the bootstrap model's own default, a falsy value)
+    "J": dict(pi_method="gaussian", estimands=["turnout"], alphas=[0.7, 0.9], aggregates=["postal_code", "county_classification", "unit"], features=[], model_parameters={"seed": 0}),
 }
 # argument sets that are not BFS operations get a fixed family of short histories instead (kind 'offbfs')
-OFF_BFS = ["E", "G", "H", "I"]
+OFF_BFS = ["E", "G", "H", "I", "J"]
 
 
 def bounds(tier):
@@ -449,8 +451,8 @@ def _seedvar_case(case, cov, viol):
 
     refs = references(case["seed"])
     for name in ARGSETS:
-        if ARGSETS[name].get("omit_params"):
-            continue  # no parameter argument, hence no seed setting to vary
+        if ARGSETS[name].get("omit_params") or "seed" in ARGSETS[name]["model_parameters"]:
+            continue  # no parameter argument / an argument set that is about one particular seed
         _reset_world()
         args = make_args(case["seed"])
         args[name]["model_parameters"]["seed"] = 977
